@@ -1333,10 +1333,31 @@ def bytes_method(it, b, name, args, kwargs):
         ctx.assumed_models.add("bytes.rstrip on symbolic bytes: result is a prefix view with a fresh length")
         if name != 'rstrip':
             raise Unsupported("bytes.%s" % name)
-        n = ctx.fresh('rstrip_len', 'int')
-        ctx.assume(z3.And(n >= 0, n <= zint(b.ln)))
+        chars = bytes(args[0]) if args else b' \t\n\r\x0b\x0c'
+        if args and isinstance(args[0], SBytes):
+            raise Unsupported("bytes.rstrip with symbolic characters")
+        n = bytes_rstrip_len(ctx, b, chars)
         return SBytes(b.arr, b.off, n, 'bytes', b.root)
     raise Unsupported("bytes.%s on symbolic bytes" % name)
+
+
+def rstrip_len_term(b, chars):
+    from .values import lit
+    return ufun('bytes_rstrip_len', b.arr.sort(), z3.IntSort(), z3.IntSort(), PyStr, z3.IntSort())(b.arr, zint(b.off), zint(b.ln),
+                                                                                                   lit(bytes(chars).hex()))
+
+
+def bytes_rstrip_len(ctx, b, chars):
+    """length of b.rstrip(chars): the function of the bytes characterised by - within the length, the last kept byte is not
+    strippable, every dropped byte is (quantified); stated as assumptions on a function symbol of (bytes, chars)"""
+    n = rstrip_len_term(b, chars)
+
+    def strippable(x):
+        return z3.Or(*[x == c for c in sorted(set(chars))]) if chars else z3.BoolVal(False)
+    q = z3.Int('q!rstrip')
+    ctx.assume(z3.And(n >= 0, n <= zint(b.ln), z3.Or(n == 0, z3.Not(strippable(b.at(n - 1)))),
+                      z3.ForAll([q], z3.Implies(z3.And(q >= n, q < zint(b.ln)), strippable(b.at(q))))))
+    return n
 
 
 def bytes_find(it, b, pat):
